@@ -148,6 +148,7 @@ class Canon:
                 if c and self.inlinable(c) is not None:
                     self.run_fn(self.fns[c], stack + (p,))
             self.drop_debug_asserts(body)
+            self.guard_else(body)
             self.flag_exits(body)
             self.assert_eq_forms(body)
             self.match_bind_guards(body)
@@ -1067,7 +1068,8 @@ class Canon:
                 c = _strip(n["init"])
                 if c.get("k") == "Closure" and not c.get("move") and all(p_.get("k") == "Bind" for p_ in c.get("params", [])):
                     cb = c["body"]
-                    if cb.get("k") == "Block" and (cb.get("stmts") or cb.get("expr") is not None) and not any(y.get("k") in ("Ret", "Try") for y in _walk(cb)) and str(cb.get("ty")) in ("()", "None"):
+                    if cb.get("k") == "Block" and (cb.get("stmts") or cb.get("expr") is not None) and not any(y.get("k") in ("Ret", "Try") for y in _walk(cb)) and \
+                            (str(cb.get("ty")) in ("()", "None") or (cb.get("stmts") and cb.get("expr") is not None)):
                         cands[n["pat"]["v"]] = (n, c)
         if not cands:
             return
@@ -1081,11 +1083,18 @@ class Canon:
             out, changed = [], False
             for st in blk.get("stmts", []):
                 e = _strip(st.get("e")) if st.get("k") in ("Semi", "Expr") and isinstance(st.get("e"), dict) else None
+                as_let = False
+                if e is None and st.get("k") == "Let" and isinstance(st.get("init"), dict) and _strip(st["init"]).get("k") == "Call":
+                    e, as_let = _strip(st["init"]), True      # `let v = closure(args);` with a value-returning block closure
                 f = _strip(e["f"]) if e is not None and e.get("k") == "Call" else None
                 if f is None or f.get("k") != "Local" or f.get("v") not in cands:
                     out.append(st)
                     continue
                 letn, c = cands[f["v"]]
+                valued = str(c["body"].get("ty")) not in ("()", "None")
+                if valued != as_let:
+                    out.append(st)
+                    continue
                 args = e.get("args", [])
                 if len(args) != len(c["params"]) or not all(self._aliasable(a) or self._pure(a) for a in args):
                     out.append(st)
@@ -1111,14 +1120,31 @@ class Canon:
                         for kk, vv in keep.items():
                             if vv is not None:
                                 u[kk] = vv
+                # a parameter that was a reference is now `&mut X` / `&X` spelled out: where the use auto-dereferences it
+                # (index base, method receiver, explicit `*`) the place is X itself
+                for y in list(_walk(cb)):
+                    for slot in (("base",) if y.get("k") == "Index" else ("recv",) if y.get("k") == "MethodCall" else ("e",) if y.get("k") == "Unary" and y.get("op") == "*" else ()):
+                        inner = y.get(slot)
+                        if isinstance(inner, dict) and _strip(inner).get("k") == "AddrOf" and isinstance(_strip(inner).get("e"), dict):
+                            if slot == "e":
+                                tgt = _strip(inner)["e"]
+                                keep_sp = y.get("sp")
+                                y.clear()
+                                y.update(tgt)
+                                if keep_sp:
+                                    y["sp"] = keep_sp
+                            else:
+                                y[slot] = _strip(inner)["e"]
                 sp = st.get("sp") or e.get("sp") or [0, 0, 0, 0]
                 k_ = 0
-                for y in _walk(cb):
-                    if y.get("sp"):
-                        k_ += 1
-                        y["sp"] = [sp[0], sp[1] + 0.00001 * k_, sp[2] if len(sp) > 2 else sp[0], sp[3] if len(sp) > 3 else sp[1]]
+                # the spliced nodes all sit on the call's line; keep their own program order (start position, outer node first)
+                for y in sorted([y for y in _walk(cb) if y.get("sp")], key=lambda y: (y["sp"][0], y["sp"][1], -(y["sp"][2] if len(y["sp"]) > 2 else 0), -(y["sp"][3] if len(y["sp"]) > 3 else 0))):
+                    k_ += 1
+                    y["sp"] = [sp[0], sp[1] + 0.00001 * k_, sp[2] if len(sp) > 2 else sp[0], sp[3] if len(sp) > 3 else sp[1]]
                 out.extend(cb.get("stmts", []))
-                if cb.get("expr") is not None:
+                if as_let:
+                    out.append(dict(st, init=cb["expr"]))
+                elif cb.get("expr") is not None:
                     out.append({"k": "Semi", "e": cb["expr"], "sp": list(cb["expr"].get("sp") or sp)})
                 calls[f["v"]] += 1
                 changed = True
@@ -1417,6 +1443,48 @@ class Canon:
                 if vv is not None:
                     m[kk] = vv
             self.stats["split_last"] = self.stats.get("split_last", 0) + 1
+
+    def guard_else(self, body):
+        """`if C { BODY } else { <diverges> }`  ->  `if !C { <diverges> }  BODY` (statement or tail position): the guard spelled with
+        the work in the `then` arm.  Bindings are identified by id, so splicing BODY into the enclosing list changes nothing."""
+        again = True
+        while again:
+            again = False
+            for blk in [n for n in _walk(body) if n.get("k") == "Block"]:
+                sts = blk.get("stmts", [])
+                items = [(i, st, _strip(st.get("e") or {})) for i, st in enumerate(sts) if st.get("k") in ("Semi", "Expr")]
+                cand = None
+                for i, st, e in items:
+                    if e.get("k") == "If" and e.get("else") is not None:
+                        cand = (i, e, False)
+                        th, el = e["then"], _strip(e["else"])
+                        if th.get("k") == "Block" and el.get("k") == "Block" and str(el.get("ty")) == "!" and str(th.get("ty")) != "!" and not e.get("m"):
+                            break
+                        cand = None
+                if cand is None and blk.get("expr") is not None:
+                    e = _strip(blk["expr"])
+                    if e.get("k") == "If" and e.get("else") is not None and not e.get("m"):
+                        th, el = e["then"], _strip(e["else"])
+                        if th.get("k") == "Block" and el.get("k") == "Block" and str(el.get("ty")) == "!" and str(th.get("ty")) != "!":
+                            cand = (len(sts), e, True)
+                if cand is None:
+                    continue
+                i, e, tail = cand
+                th, el = e["then"], _strip(e["else"])
+                sp = e.get("sp") or [0, 0, 0, 0]
+                neg = {"k": "Unary", "op": "!", "e": e["cond"], "id": self._id(), "ty": "bool", "sp": list(e["cond"].get("sp") or sp)}
+                guard = {"k": "If", "cond": neg, "then": el, "else": None, "id": self._id(), "ty": "()", "sp": list(sp)}
+                new = [{"k": "Semi", "e": guard, "sp": list(sp)}] + list(th.get("stmts", []))
+                if tail:
+                    blk["stmts"] = sts + new
+                    blk["expr"] = th.get("expr")
+                else:
+                    if th.get("expr") is not None:
+                        new.append({"k": "Semi", "e": th["expr"], "sp": th["expr"].get("sp")})
+                    blk["stmts"] = sts[:i] + new + sts[i + 1:]
+                self.stats["guard_else"] = self.stats.get("guard_else", 0) + 1
+                again = True
+                break
 
     def flag_exits(self, body):
         """`let mut done = false; LOOP { .. done = true; break; .. } if done { A } else { B }` (the loop is the last statement, the flag is
